@@ -16,12 +16,13 @@ var args = keep(x1, x2);
 var bound = function(p, q){ return this.a + p + q }.bind(o, x2);
 var frozen = Object.freeze({f: x1});
 Array.prototype.extra = function(){ return x0 };
+var mapped = (function(a, b){ return {args: arguments, setA: function(v){ a = v }, getA: function(){ return a }} })(x1, x2);
 function shadow(arguments){ return function(){ return arguments } }
 var sh = shadow(x2);
 function observe(){
   return [o.a, o.inherited, o.nested.deep, o.nested.list.length, o.nested.list[0], 2 in o.nested.list, o.acc,
           counter.get(), args.length, args[0], args[1], bound(1), Object.isFrozen(frozen), frozen.f,
-          Object.keys(o).join(','), [].extra(), Object.getPrototypeOf(o) === base, typeof Math.max, sh()];
+          Object.keys(o).join(','), [].extra(), Object.getPrototypeOf(o) === base, typeof Math.max, sh(), mapped.args[0], mapped.getA(), mapped.args.length, 0 in mapped.args];
 }
 `
 
@@ -42,6 +43,11 @@ var verifCopyMutations = []string{
 	"Array.prototype.extra = function(){ return m }",
 	"Math.max = m",
 	"o.fresh = m",
+	"mapped.setA(m)",
+	"mapped.args[0] = m",
+	"delete mapped.args[0]; mapped.setA(m)",
+	"delete o.nested; o.late = m",
+	"bound = null; delete frozen.f",
 }
 
 func VerifH_C17_copy() {
@@ -85,6 +91,16 @@ func VerifH_C17_copy() {
 	target.Run(mut)
 	for _, r := range others {
 		verifAssert(verifSameValue(before, obs(r)), "mutation on one runtime is not observable from the others")
+	}
+	// second step: the untouched runtimes must still behave like a fresh copy
+	probe := "mapped.setA(41); o.probe = 1; [mapped.args[0], mapped.getA(), Object.keys(o).join(',')].join('|')"
+	want, _ := cp2.Copy().Run(probe)
+	_ = want
+	ref := others[0].Copy()
+	refv, _ := ref.Run(probe)
+	for _, r := range others {
+		v, _ := r.Run(probe)
+		verifAssert(v.String() == refv.String(), "untouched runtimes still behave identically after the mutation")
 	}
 }
 
